@@ -31,8 +31,12 @@ def visit(node, env, pred, out, guards=()):
                             for p, v in zip(s["pat"]["pats"], t[1:]):
                                 if H.kind(p) == "Bind":
                                     e2.roles[p["name"]] = v
-                        else:
+                        elif H.kind(H.final_expr(s["init"])) == "Tup":
                             S.bind_tuple(s["pat"], s["init"], e2)
+                        else:
+                            for i_, p_ in enumerate(s["pat"]["pats"]):
+                                if H.kind(p_) == "Bind":
+                                    e2.roles[p_["name"]] = ("proj", i_, t)
                 if s.get("els") is not None:
                     visit(s["els"], e2, pred, out, guards)
             elif s["k"] in ("Expr", "Semi"):
